@@ -108,7 +108,7 @@ pub fn sites(shape: &Shape, prefix: Vec<u8>, path: String, levels: usize, out: &
 	}
 }
 
-pub const COUNTS: [u64; 8] = [(1 << 16) + 1, 1 << 20, 1 << 24, (1 << 30) - 1, 1 << 30, 1 << 31, (1u64 << 32) - 2, (1u64 << 32) - 1];
+pub const COUNTS: [u64; 11] = [1000, 3000, 16384, (1 << 16) + 1, 1 << 20, 1 << 24, (1 << 30) - 1, 1 << 30, 1 << 31, (1u64 << 32) - 2, (1u64 << 32) - 1];
 pub const BIT_COUNTS: [u64; 5] = [(1 << 16) + 1, 1 << 20, 1 << 24, 1 << 28, (1 << 29) - 1];
 pub const KINDS: [&str; 4] = ["slice", "nolen", "ioreader", "from_bytes"];
 
@@ -173,7 +173,7 @@ pub fn type_cases(vt: &VT, tier: Tier, emit: &mut dyn FnMut(Json)) -> (u64, u64)
 		let counts: &[u64] = if site.bits {
 			&BIT_COUNTS
 		} else if site.elem.is_none() {
-			&COUNTS[..3]
+			&COUNTS[3..6]
 		} else {
 			&COUNTS
 		};
@@ -204,7 +204,12 @@ pub fn type_cases(vt: &VT, tier: Tier, emit: &mut dyn FnMut(Json)) -> (u64, u64)
 								allow
 							));
 						}
-						if let Some(b0) = base {
+						// counts are only comparable with each other once they exceed what the payload can supply
+						// (every non-zero-width element takes at least one byte); smaller counts are satisfiable
+						// and are judged by the absolute allowance alone
+						if (c as usize) <= p {
+							// not comparable
+						} else if let Some(b0) = base {
 							// the fixed preallocation allowance may or may not be reached by the smallest count
 							if bad.is_none() && u.peak > b0 + b0 / 4 + (128 << 10) * (site.levels + 1) {
 								bad = Some(format!(
@@ -272,7 +277,7 @@ pub fn run(tier: Tier, reg: &[VT]) -> Report {
 		(0..types.len()).collect()
 	} else {
 		// quick: core types, unary containers and every derived definition with a container field
-		(0..types.len()).filter(|i| types[*i].core || types[*i].class == "unary" || i % 7 == 0).collect()
+		(0..types.len()).filter(|i| types[*i].core || types[*i].class == "unary" || types[*i].class == "bigelem" || i % 7 == 0).collect()
 	};
 	// contiguous runs of indices per worker process; a dying worker is attributed and restarted
 	let nworkers = threads();
